@@ -15,7 +15,7 @@ from ..compile import World
 from ..ctx import CTX, InjectedFault, RunTooBig
 from ..history import History, canon, canon_outcome, digest, same
 from ..rng import Streams, chance, pick, weighted
-from ..sim import apply_op, build_sim, preload, readable, stack_state, watch_spirals
+from ..sim import apply_op, build_sim, locations, preload, readable, stack_state, watch_spirals
 from ..world import gen_inputs, gen_request, gen_situation, gen_world
 from . import Result
 
@@ -238,6 +238,9 @@ def execute(scn, world: World, plans: dict, res: Result, *, auto_heal: bool, rec
             res.count("steps")
             for f in fired:
                 res.count(f"fault:{f[1]}")
+            res.mark("states", digest([sorted([list(k), v] for k, v in locations(sim).items()), st["stack"], st["invalidated"]]))
+            if failed and isinstance(out[1], of_errors.CycleError):
+                res.count("fault:true_cycle")
 
             # C18.stack ---------------------------------------------------------
             res.count("clause:C18.stack")
@@ -324,6 +327,12 @@ def execute(scn, world: World, plans: dict, res: Result, *, auto_heal: bool, rec
             res.count("mem_reads", env.mem.reads)
         if env.fs is not None:
             res.count("fs_saves", env.fs.n["save"])
+            if env.fs.n["save"]:
+                res.count("probe:disk_put")
+        if spirals:
+            res.count("probe:spiral_raised")
+        if spirals and any(k.startswith("fault:") for k in res.stats):
+            res.count("probe:fault_in_a_run_with_a_spiral")
     return H
 
 
@@ -455,6 +464,8 @@ def _run(scn, world, res):
                 res.mark("nontrivial", d)
             for key, n in sub.stats.items():
                 res.count(key, n)
+            for key, st_ in sub.sets.items():
+                res.sets.setdefault(key, set()).update(st_)
             for v in sub.violations:
                 res.violations.append({**v, "placement": [pl[0], pl[1], list(pl[2]) if isinstance(pl[2], tuple) else pl[2], pl[3]]})
             if sub.violations:
